@@ -3,6 +3,7 @@
 # Same purpose as mutant_run.sh (run checks against /repo HEAD + patch without touching
 # /repo or /verif's evidence) but with ONE persistent scratch worktree and persistent target
 # dirs under /tmp/mutfast, so only the library crate and the needed check module rebuild.
+# env BASE=<commit> pins the repo commit (default /repo HEAD); KFDIR=<dir> the known-findings snapshot.
 # Sequential (flock). `tools/mutant_run_fast.sh --cleanup` removes everything.
 set -u
 W=/tmp/mutfast
@@ -12,20 +13,20 @@ exec 9>/tmp/mutfast.lock; flock 9
 mkdir -p $W/verif
 export CARGO_NET_OFFLINE=true
 if [ ! -e $W/repo/.git ]; then git -C /repo worktree add --detach $W/repo HEAD >/dev/null 2>&1 || { echo "worktree failed"; exit 2; }; fi
-( cd $W/repo && git checkout -q --detach "$(git -C /repo rev-parse HEAD)" && git reset -q --hard && git clean -qfd ) || exit 2
+( cd $W/repo && git checkout -q --detach "${BASE:-$(git -C /repo rev-parse HEAD)}" && git reset -q --hard && git clean -qfd ) || exit 2
 ( cd $W/repo && git apply "$PATCH" ) || { echo "patch does not apply"; exit 2; }
 rsync -a --delete --exclude 'target*' /verif/harness $W/verif/
-rm -rf $W/verif/known_findings.d $W/verif/evidence $W/verif/replays; cp -r /verif/known_findings.json /verif/known_findings.d $W/verif/ 2>/dev/null
+rm -rf $W/verif/known_findings.d $W/verif/evidence $W/verif/replays; cp -r /verif/known_findings.json $W/verif/ 2>/dev/null; cp -r "${KFDIR:-/verif/known_findings.d}" $W/verif/known_findings.d
 grep -rl '/repo/oxidize-pdf-core' $W/verif/harness --include=Cargo.toml | xargs sed -i "s|/repo/oxidize-pdf-core|$W/repo/oxidize-pdf-core|g"
 export VERIF_REPO=$W/repo VERIF_ROOT=$W/verif
 RC=0
 for ID in "$@"; do
   echo "=== mutant $(basename "$(dirname "$PATCH")")/$(basename "$PATCH") check $ID"
-  lc=$(echo "$ID" | tr 'A-Z' 'a-z')
+  lc=$(echo "$ID" | tr 'A-Z' 'a-z'); FEAT=$lc; [ "$lc" = c03 ] && FEAT=c02,c03
   case "$ID" in
     C22|C29) ( cd $W/verif/harness && RUSTFLAGS="--cfg oxidize_pdf_verif --cfg oxidize_pdf_verif_sched" CARGO_TARGET_DIR=$W/target-sched cargo build --release --offline -q -p vsched 2>$W/build.log ) || { echo "MACHINERY build failed"; grep -E "^error" -A6 $W/build.log | head -20; RC=2; continue; }
              BIN=$W/target-sched/release/vsched ;;
-    *)       ( cd $W/verif/harness && RUSTFLAGS="--cfg oxidize_pdf_verif" CARGO_TARGET_DIR=$W/target cargo build --release --offline -q -p vcheck --no-default-features --features $lc 2>$W/build.log ) || { echo "MACHINERY build failed"; grep -E "^error" -A6 $W/build.log | head -20; RC=2; continue; }
+    *)       ( cd $W/verif/harness && RUSTFLAGS="--cfg oxidize_pdf_verif" CARGO_TARGET_DIR=$W/target cargo build --release --offline -q -p vcheck --no-default-features --features $FEAT 2>$W/build.log ) || { echo "MACHINERY build failed"; grep -E "^error" -A6 $W/build.log | head -20; RC=2; continue; }
              BIN=$W/target/release/vcheck ;;
   esac
   ( cd $W/verif/harness && $BIN "$ID" --tier "${TIER:-quick}" 2>&1 ) | grep -E "^(VIOLATION|KNOWN-FINDING|OK|MACHINERY)" | cut -c1-400
